@@ -530,4 +530,136 @@ theorem touchLocal_reach {cfg : Cfg} {done : Bool} {failed : Option Nat} {s : St
     exact ih _ (act_local cfg TouchLocal (by intro o b; simp [TouchLocal, newProc]) (step_touchLocal cfg)
       deliver_touchLocal s a h)
 
+
+/-- `k` consecutive steps of one process, seen on the shared state and its own record -/
+def soloIter (cfg : Cfg) (i : Nat) : Nat → Shared × Proc → Shared × Proc
+  | 0, x => x
+  | k + 1, x => soloIter cfg i k (stepProc cfg i x.1 x.2)
+
+theorem upd_upd {α : Type} (f : Nat → α) (i : Nat) (a b : α) : upd (upd f i a) i b = upd f i b := by
+  funext j; simp only [upd]; split <;> rfl
+
+theorem runAlone_eq (cfg : Cfg) (i k : Nat) (s : St) (hi : i < s.n) :
+    runAlone cfg i k s =
+      { s with sh := (soloIter cfg i k (s.sh, s.procs i)).1, procs := upd s.procs i (soloIter cfg i k (s.sh, s.procs i)).2 } := by
+  induction k generalizing s with
+  | zero =>
+    simp only [runAlone, soloIter]
+    have : upd s.procs i (s.procs i) = s.procs := by funext j; simp only [upd]; split <;> simp_all
+    rw [this]
+  | succ k ih =>
+    simp only [runAlone, soloIter]
+    rw [ih (act cfg s (.step i)) (by simp [act, hi])]
+    simp [act, hi, upd_upd, upd]
+
+theorem soloIter_add (cfg : Cfg) (i a b : Nat) (x : Shared × Proc) :
+    soloIter cfg i (a + b) x = soloIter cfg i b (soloIter cfg i a x) := by
+  induction a generalizing x with
+  | zero => simp [soloIter]
+  | succ a ih => rw [Nat.succ_add]; simp only [soloIter]; exact ih _
+
+theorem soloIter_dead (cfg : Cfg) (i k : Nat) (sh : Shared) (p : Proc) (e : Exit) (h : p.dead = some e) :
+    soloIter cfg i k (sh, p) = (sh, p) := by
+  induction k with
+  | zero => rfl
+  | succ k ih => simp only [soloIter, stepProc, h]; exact ih
+
+/-- the body loop: `d` internal points -/
+theorem soloIter_body (cfg : Cfg) (i d j : Nat) (sh : Shared) (p : Proc) (hd : p.dead = none) (hh : p.hnd = none)
+    (hl : p.loc = .body j) (hb : j + d ≤ p.blen) :
+    soloIter cfg i d (sh, p) = (sh, { p with loc := .body (j + d) }) := by
+  induction d generalizing j p with
+  | zero => simp [soloIter, ← hl]
+  | succ d ih =>
+    have hlt : j < p.blen := by omega
+    have h1 : stepProc cfg i sh p = (sh, { p with loc := .body (j + 1) }) := by
+      simp [stepProc, hd, hh, mainStep, hl, hlt]
+    simp only [soloIter, h1]
+    rw [ih (j + 1) { p with loc := .body (j + 1) } hd hh rfl (by simp; omega)]
+    simp [Nat.add_assoc, Nat.add_comm 1 d]
+
+
+/-- a fresh process running alone in a directory that shows the success marker: 11 steps, no body -/
+theorem solo_done (cfg : Cfg) (i : Nat) (sh : Shared) (o : Outcome) (b : Nat) (hl : sh.lock = none) (hd : sh.done = true) :
+    (soloIter cfg i 11 (sh, newProc o b)).1.starts = sh.starts ∧ (soloIter cfg i 11 (sh, newProc o b)).1.done = true ∧
+    (soloIter cfg i 11 (sh, newProc o b)).1.lock = none ∧ (soloIter cfg i 11 (sh, newProc o b)).1.failed = sh.failed ∧
+    (soloIter cfg i 11 (sh, newProc o b)).1.pid = none ∧ (soloIter cfg i 11 (sh, newProc o b)).2.dead = some (.code 0) := by
+  simp [soloIter, stepProc, mainStep, newProc, finStart, release, hl, hd]
+
+/-- … and in a directory without success marker: it reaches the body after 9 steps with one more body start -/
+theorem solo_start (cfg : Cfg) (i : Nat) (sh : Shared) (o : Outcome) (b : Nat) (hl : sh.lock = none) (hd : sh.done = false) :
+    soloIter cfg i 9 (sh, newProc o b) =
+      ({ sh with lock := some (.run i), epoch := sh.epoch + 1, failed := none, starts := sh.starts + 1 },
+       { newProc o b with loc := .body 0, reg := true, termH := true, intH := true, started := true }) := by
+  simp [soloIter, stepProc, mainStep, newProc, hl, hd]
+
+theorem solo_run_ok (cfg : Cfg) (i : Nat) (sh : Shared) (b : Nat) (hl : sh.lock = none) (hd : sh.done = false) :
+    (soloIter cfg i (b + 21) (sh, newProc .ok b)).1.starts = sh.starts + 1 ∧
+    (soloIter cfg i (b + 21) (sh, newProc .ok b)).1.done = true ∧
+    (soloIter cfg i (b + 21) (sh, newProc .ok b)).1.lock = none ∧
+    (soloIter cfg i (b + 21) (sh, newProc .ok b)).1.failed = none ∧
+    (soloIter cfg i (b + 21) (sh, newProc .ok b)).1.pid = (if cfg.unregOnSuccess then sh.pid else none) ∧
+    (soloIter cfg i (b + 21) (sh, newProc .ok b)).2.dead = some (.code 0) ∧
+    (soloIter cfg i (b + 21) (sh, newProc .ok b)).2.completed = true := by
+  have h21 : b + 21 = 9 + (b + 12) := by omega
+  rw [h21, soloIter_add, solo_start cfg i sh .ok b hl hd, soloIter_add,
+    soloIter_body cfg i b 0 _ _ rfl rfl rfl (by simp [newProc])]
+  cases hu : cfg.unregOnSuccess <;>
+    simp [soloIter, stepProc, mainStep, newProc, finStart, release, hu]
+
+
+/-- nobody has cleaned up before the failure path or a handler -/
+def NoClean (p : Proc) : Prop := p.hnd = none → p.loc.failing = false → p.cleaned = false
+
+theorem step_noClean (cfg : Cfg) (i : Nat) (sh : Shared) (p : Proc) (ih : NoClean p) : NoClean (stepProc cfg i sh p).2 := by
+  unfold NoClean at *
+  cases hr : stepProc cfg i sh p with
+  | mk sh' p' =>
+  unfold stepProc mainStep handlerStep afterHandler finStart release markEpoch at hr
+  simp only
+  grind (splits := 30) [Loc.failing, Loc.inTry]
+
+theorem deliver_noClean (i : Nat) (sh : Shared) (p : Proc) (sg : Sig) (ih : NoClean p) : NoClean (deliver i sh p sg).2 := by
+  unfold NoClean at *
+  cases hr : deliver i sh p sg with
+  | mk sh' p' =>
+  unfold deliver finStart release at hr
+  simp only
+  grind (splits := 30) [Loc.failing, Loc.inTry]
+
+theorem noClean_reach {cfg : Cfg} {done : Bool} {failed : Option Nat} {s : St} (h : Reach cfg done failed s) :
+    ∀ q, q < s.n → NoClean (s.procs q) := by
+  obtain ⟨acts, rfl⟩ := h
+  suffices ∀ (acts : List Act) (s : St), (∀ q, q < s.n → NoClean (s.procs q)) →
+      ∀ q, q < (run cfg s acts).n → NoClean ((run cfg s acts).procs q) from
+    this acts _ (by intro q hq; simp [St.init] at hq)
+  intro acts
+  induction acts with
+  | nil => intro s h; exact h
+  | cons a as ih =>
+    intro s h
+    exact ih _ (act_local cfg NoClean (by intro o b; simp [NoClean, newProc]) (step_noClean cfg) deliver_noClean s a h)
+
+/-- a process interrupted inside the body by a handled signal, running alone: 10 steps to its death -/
+theorem solo_signal (cfg : Cfg) (i : Nat) (sh : Shared) (p : Proc) (k c : Nat)
+    (hd : p.dead = none) (hl : p.loc = .body k) (hh : p.hnd = some (.write, c)) (hlock : sh.lock = some (.run i))
+    (hdone : sh.done = false) (hreg : p.reg = true) (hcl : p.cleaned = false) :
+    (soloIter cfg i 10 (sh, p)).1.failed = some 1 ∧ (soloIter cfg i 10 (sh, p)).1.done = false ∧
+    (soloIter cfg i 10 (sh, p)).1.lock = none ∧ (soloIter cfg i 10 (sh, p)).1.pid = none ∧
+    (soloIter cfg i 10 (sh, p)).2.dead = some (.code 1) := by
+  simp [soloIter, stepProc, handlerStep, mainStep, afterHandler, finStart, release, markEpoch, Loc.inTry,
+    hd, hl, hh, hlock, hdone, hreg, hcl]
+
+
+/-- in a quiescent reachable state (every runner dead, no launcher in its critical section) the lock is free -/
+theorem quiescent_lock_free {cfg : Cfg} {done : Bool} {failed : Option Nat} {s : St} (h : Reach cfg done failed s)
+    (hq : ∀ i, i < s.n → (s.procs i).dead ≠ none) (hlq : ∀ l, (s.ls l).holds = false) : s.sh.lock = none := by
+  have inv := inv_reach h
+  cases hl : s.sh.lock with
+  | none => rfl
+  | some ho =>
+    cases ho with
+    | run i => have := inv.lockRun i hl; exact absurd this.2 (hq i this.1)
+    | launch l => have := (inv.lockLaunch l).mp hl; simp [hlq l] at this
+
 end XpmVerif.Runner
